@@ -2,7 +2,7 @@
 
 from hypothesis import strategies as st
 
-from pv import gen
+from pv import core, gen
 from pv.core import Fail, Res, Sub
 
 PROPERTY = "C14"
@@ -205,6 +205,49 @@ def _short(c):
     return c
 
 
+# ------------------------------------------------------------------ whatever the constructor returns is sealed
+def o_sealed(case):
+    """every byte-truncation of a generated payload (and the payload with bytes appended): most are rejected by the
+    constructor - not this property's business - but whatever object IS returned, for whatever input, is a parsed
+    message and refuses assignment like any other"""
+    from pyrtcm import RTCMMessage
+    from pyrtcm.exceptions import RTCMMessageError
+
+    from pv.checks.c04 import lib_errors
+
+    full = bytes.fromhex(case["payload"])
+    core.note_input(len(full) * (len(full) + 8))
+    built = rejected = 0
+    for cut in list(range(2, len(full))) + [len(full) + k for k in (0, 1, 3)]:
+        p = full[:cut] if cut <= len(full) else full + bytes(cut - len(full))
+        try:
+            m = RTCMMessage(payload=p, labelmsm=case.get("labelmsm", 1))
+        except lib_errors():
+            rejected += 1
+            continue
+        built += 1
+        before = snapshot(m)
+        names = [n for n in m.__dict__ if not n.startswith("_")]
+        for name, val in ((names[0] if names else "DF002", 1), ("NEWATTR", 1), ("_payload", b"\x00\x00"), (names[-1] if names else "DF002", None)):
+            try:
+                setattr(m, name, val)
+            except RTCMMessageError:
+                continue
+            except Exception as e:  # pylint: disable=broad-except
+                raise Fail("wrong-exception", f"setattr({name!r}) on {before[1]} built from {cut} of {len(full)} payload bytes raised {type(e).__name__}: {e}") from e
+            raise Fail("assignment-accepted", f"setattr({name!r}, {val!r}) on a {before[1]} message built from {cut} of {len(full)} payload bytes did not raise")
+        if snapshot(m) != before:
+            raise Fail("state-changed", f"{before[1]} built from {cut} of {len(full)} payload bytes changed after refused assignments")
+    return Res(nontrivial=built > 1, classes=["some-truncations-accepted" if built > 4 else "only-complete-accepted"], evals=built + rejected)
+
+
+def plan_sealed(tier, shard, nshards):
+    ids = gen.all_idents_safe()[shard::nshards]
+    n = 4 if tier == "quick" else 60
+    return [(i, gen.messages(i, "small" if tier == "quick" else "mixed"), n) for i in ids]
+
+
 SUBS = [
     Sub("setattr_sequences", o_setattr, strategy=s_setattr, examples=(200, 4000), rule="touches a derived MSM attribute or a private name", need={"msm": 1, "stub": 1, "touch-private": 1, "touch-derived": 1, "touch-property": 1, "source-reader-socket": 1, "source-pickle": 1, "source-copy": 1, "other-constructions-interleaved": 1, "frame-checksum-000000": 1}, sample=_short),
+    Sub("truncated_or_extended_payloads_are_sealed", o_sealed, plan=plan_sealed, rule="more than one of the truncations / extensions yields a message", sample=_short),
 ]
